@@ -617,9 +617,18 @@ func runIndex(c *core.Ctx) []core.Obligation {
 				}
 			case *ssa.Slice:
 				for _, b := range []ssa.Value{x.Low, x.High, x.Max} {
-					if b != nil {
-						sinks = append(sinks, sink{b, x.X.Type(), "slice bound", x.X})
+					if b == nil {
+						continue
 					}
+					// s[i : i+1] is safe exactly when i is a valid element index: the high bound i+1 is judged as the
+					// index i (found when D58's repair sliced one decoded vertex out of the target)
+					if bo, ok := b.(*ssa.BinOp); ok && bo.Op == token.ADD && b != x.Low {
+						if k, ok := core.ConstInt(bo.Y); ok && k == 1 {
+							sinks = append(sinks, sink{bo.X, x.X.Type(), "index", x.X})
+							continue
+						}
+					}
+					sinks = append(sinks, sink{b, x.X.Type(), "slice bound", x.X})
 				}
 			}
 			for _, s := range sinks {
